@@ -887,7 +887,7 @@ pub fn run(rep: &Report) {
         check_cell(b, &recv[*r], &args, 0, l)
     });
     run_enum(rep, "partition_fixed", &recv, |v, l| check_partition(v, 0, l));
-    let n = rep.tier.scale(150_000, 30);
+    let n = rep.tier.scale(450_000, 10);
     run_family(rep, "random_cells", n, || (0..BUILTINS.len(), prop_oneof![2 => value(ValOpts { undefined: true, depth: 2, ..Default::default() }), 2 => text_strategy().prop_map(|s| MVal::s(&s)), 1 => numeral_strategy().prop_map(|s| MVal::s(&s))], [arg_strategy(), arg_strategy(), arg_strategy()], any::<u64>()), |(bi, v, args, salt), l| {
         let b = &BUILTINS[*bi];
         check_cell(b, v, &args[..], *salt, l)?;
